@@ -179,6 +179,18 @@ def check_pipeline(ctx, case):
     starts = live if k <= 2 else rng.sample(live, min(len(live), 4))
     if case.get("long"):
         starts = starts[:2]
+        if (spec["kind"] != "local") or ((spec["cfg"]["run"] is None or spec["cfg"]["run"] < k) and all(len(m) <= k for m in (spec["cfg"]["motifs"] or []))):
+            # every walk of the generated graph is the strand of some message: long walks from every retained vertex, judged by the
+            # whole-sequence check together with their start k-mer (each window of it is a retained vertex)
+            for v in (live if len(live) <= 128 else rng.sample(live, 128)):
+                wlk = G.random_walk(acc, v, 1150, rng)
+                if len(wlk) >= 1000:
+                    verdict = monitored(f.valid, 10 ** 7, G.kmer(v, k) + wlk, False)
+                    if verdict.kind != "ok" or not verdict.value:
+                        ctx.fail("whole-sequence-check-fails", "a walk of %d nt of the generated graph, prefixed with its start k-mer %s, is judged %s by the filter's whole-sequence check; k=%d t=%d filter=%s" % (
+                            len(wlk), G.kmer(v, k), verdict.describe(), k, t, spec))
+                        break
+                    ctx.cls("long walk from a retained vertex judged by the whole-sequence check")
     for start in starts:
         for _ in range(case["n_msgs"]):
             bits, mclass = gens.message(rng, 80) if not case.get("long") else gens.message(rng, 8, "long")
@@ -293,6 +305,8 @@ CHECKS = {"ctor": check_ctor, "pipeline": check_pipeline, "strand": check_strand
 
 def floors(agg, tier):
     out = []
+    if agg["classes"].get("long walk from a retained vertex judged by the whole-sequence check", 0) < 100:
+        out.append("long walks judged by the whole-sequence check: %d < 100" % agg["classes"].get("long walk from a retained vertex judged by the whole-sequence check", 0))
     c = agg["classes"]
     for name, need in (("ctor|accepted", 100), ("ctor|rejected", 100), ("filter|local", 1000), ("filter|user:forbidden", 100),
                        ("filter|user:doc-gc", 100), ("whole-sequence|checked", 1000), ("mode|fast", 200), ("table|on", 500),
